@@ -49,7 +49,7 @@ static void phr_from_idx(const unsigned idx[16], int li, struct phr *p, int use_
  * NM+3 ideographic space before; NM+4 no-break space before; then global ones (position ignored):
  * G0 leading space, G1 trailing space, G2 two trailing spaces, G3 17th token, G4 drop last token, G5 trailing ideographic space */
 static int NM;           /* menu size in use */
-#define NLOCAL (NM + 5)
+#define NLOCAL (NM + 8)
 #define NGLOBAL 6
 static void deviate(struct phr *p, int pos, int d) {
     if (d < NM) strcpy(p->tok[pos], MENU[d]);
@@ -58,6 +58,8 @@ static void deviate(struct phr *p, int pos, int d) {
     else if (d == NM + 2) { if (pos) strcpy(p->sep[pos], "  "); else strcpy(p->lead, " "); }
     else if (d == NM + 3) { if (pos) strcpy(p->sep[pos], "\xE3\x80\x80"); else strcpy(p->lead, "\xE3\x80\x80"); }
     else if (d == NM + 4) { if (pos) strcpy(p->sep[pos], "\xC2\xA0"); else strcpy(p->lead, "\xC2\xA0"); }
+    else if (d >= NM + 5 && d <= NM + 7) { /* a non-ASCII character glued in front of the token: inverted exclamation mark, combining acute, byte-order mark */
+        static const char *J[3] = { "\xC2\xA1", "\xCC\x81", "\xEF\xBB\xBF" }; char t[80]; snprintf(t, sizeof t, "%s%s", J[d - NM - 5], p->tok[pos]); strncpy(p->tok[pos], t, 63); p->tok[pos][63] = 0; }
     else switch (d - NLOCAL) {
         case 0: strcpy(p->lead, " "); break;
         case 1: strcpy(p->trail, " "); break;
@@ -229,9 +231,9 @@ int main(int argc, char **argv) {
         if (G_thorough) { for (int p = 0; p < 16; p++) for (int q = p + 1; q < 16; q++) { PP[npp][0] = p; PP[npp][1] = q; npp++; } }
         else { PP[0][0] = 0; PP[0][1] = 1; PP[1][0] = 7; PP[1][1] = 8; PP[2][0] = 3; PP[2][1] = 15; npp = 3; }
         NM = NMENU;
-        int DL[64], ndl = 0;
+        int DL[80], ndl = 0;
         for (int d = 0; d < NMENU_SMALL; d++) DL[ndl++] = d;
-        for (int d = NM; d < NM + 5; d++) DL[ndl++] = d;
+        for (int d = NM; d < NM + 8; d++) DL[ndl++] = d;
         for (int b = 0; b < NBASE; b++) {
             for (int k = 0; k < npp; k++) for (int i = 0; i < ndl; i++) for (int j = 0; j < ndl; j++) job_add(b, PP[k][0], DL[i], PP[k][1], DL[j]);
             /* a local deviation combined with every global one */
